@@ -165,6 +165,31 @@ CLAIMED['C19'] = dict(
          'points (byte comparison of arrays and option dictionaries before/after, read-only arrays, repeated calls, value equality across layouts).',
     note=NOTE + ' Which validator an entry point calls is hand-modelled and validated by the accept/reject correspondence on the entry points themselves.')
 
+CLAIMED['C06'] = dict(
+    technique='Coq proof over a Gallina model of every option-threading call site (parametric in the option values; defaults and fall-back literals from the table REGENERATED from emd/sift.py on every run) + exhaustive traced correspondence of the grid variant x option x route x nprocesses (stage calls recorded in parent and forked workers)',
+    text='Theorems (Prop_C06.v) prove for every option value type, every well-formed option set, every variant (classic, masked, ensemble, '
+         'complete-ensemble, both second-layer sifts), every delivery route (keyword dicts, SiftConfig unpacking, get_func partial) and every run shape '
+         '(numbers of iterations / layers / members / phases) that each recorded stage call of get_next_imf, interp_envelope and get_padded_extrema '
+         'receives exactly the supplied options completed by that stage\'s own defaults (no option dropped or replaced by a default), that the three '
+         'routes give the same calls, and that this equals the pipeline assembled directly from the stage functions; the three pre-repair call sites '
+         '(get_next_imf_mask, get_mask_freqs, the noise sifts of complete_ensemble_sift) are refuted with witnesses. These are plumbing theorems, '
+         'shallow on purpose: their weight is the correspondence, which compares the SET of (stage, effective options) records of the real code - '
+         'traced by harness-side wrappers inherited by forked workers - with the model on the full grid (420 runs quick, 3456 thorough), plus an '
+         'oracle that every call of the option\'s stage received the supplied value and that outputs equal a hand-assembled decomposition.',
+    note=NOTE + ' The stage functions are opaque (whether a stage honours an option it received is C05/C04 ground); number and order of calls are not compared.')
+CLAIMED['C08'] = dict(
+    technique='Coq proof over a model of the noise stream / fork / Pool schedule (all schedules) and of the ensemble and complete-ensemble means + traced correspondence of the real noise realisations across nensembles x nprocesses x modes + bit-exact toy-generator runs',
+    text='Theorems (Prop_C08.v) prove for EVERY generator and EVERY valid job-to-worker schedule that with the repaired code member i receives block i '
+         'of one stream (stream positions of different members are disjoint), hence that the whole result is schedule independent; that each member is '
+         'sift(X+n) or, in flip mode, half of sift(X+n)+sift(X-n) (error when their column counts differ); that each ensemble column is the mean over '
+         'members; that with zero noise scale every member and the ensemble equal the classic sift with the same cap (under the stated arithmetic '
+         'contracts, discharged for the integer instance); the same for the complete-ensemble variant with its parent-generated matrix; and REFUTE the '
+         'pre-repair code (noise drawn in forked workers: two workers give members 0 and 1 the same block). NOT PROVED (the generator\'s contract): '
+         'that two different stream blocks hold different numbers. Correspondence/oracle: the noise of every member call is traced in the real worker '
+         'processes (digests pairwise distinct for non-zero noise; output = mean of member decompositions recomputed from the traced noise; zero-noise '
+         'ensemble = classic sift) over nensembles x nprocesses x {single, flip} x noise levels, plus exact integer toy-generator runs.',
+    note=NOTE + ' The OS scheduler is sampled (nprocesses 1..8), not enumerated: the model is fed the schedule the harness observed. Members with different column counts (IndexError in ensemble_sift) are discarded and counted.')
+
 _PENDING = 'check under construction in this session (model/theorem/correspondence not all in place yet); not claimed until they are'
 NOT_CLAIMED = {('C%02d' % i): _PENDING for i in range(1, 21)}
 for _p in CLAIMED:
